@@ -583,6 +583,12 @@ def check_lazy(case, stats):
                 fresh = read()
                 if not same(r, v):
                     return [Failure(f"C20:field-value-depends-on-earlier-accesses:{fcase['fmt']}:{nm}", {"fresh": r, "after_other_accesses": v})]
+        if len(ref) >= 2:
+            # a row subset (every other row, and the rows in reverse) taken after the accesses writes what the same subset of an untouched chunk writes
+            for how, sel in (("mask", np.arange(len(ref)) % 2 == 0), ("reversed", slice(None, None, -1))):
+                if written(t[sel]) != written(read()[sel]):
+                    return [Failure(f"C20:subset-bytes-changed-by-field-access:{fcase['fmt']}", {"subset": how, "untouched": written(read()[sel])[:300], "after_accesses": written(t[sel])[:300],
+                                                                                          "accessed": [names[i % len(names)] for i in case["order"]]})]
         bytes_after = written(t)
         if bytes_after != bytes_before:
             return [Failure(f"C20:chunk-bytes-changed-by-field-access:{fcase['fmt']}", {"before": bytes_before[:300], "after": bytes_after[:300]})]
